@@ -31,6 +31,7 @@ typedef long double LD;
 typedef rref::Ref< LD > RefL;
 static const double EPS = DBL_EPSILON;
 static bool g_cold_strict = false;
+static double g_near_dump = 0.; // debugging: print passing cases above this ratio
 
 // ---------------------------------------------------------------------------
 // abort interception (cmac_error -> abort)
@@ -249,13 +250,16 @@ static Textbook textbook_hllc(const Case &c) {
   const LD ps = ppv > 0 ? ppv : 0;
   const LD qL = ps > pL ? sqrtl(1 + (g + 1) / (2 * g) * (ps / pL - 1)) : 1;
   const LD qR = ps > pR ? sqrtl(1 + (g + 1) / (2 * g) * (ps / pR - 1)) : 1;
-  T.SL = vL - aL * qL;
-  T.SR = vR + aR * qR;
-  T.Sstar = (pR - pL + rL * vL * (T.SL - vL) - rR * vR * (T.SR - vR)) /
-            (rL * (T.SL - vL) - rR * (T.SR - vR));
+  // S_K - v_K is kept as a quantity of its own (-aL qL, +aR qR): formed as a
+  // difference it is absorbed when |v_K| >> a_K
+  const LD dSL = -aL * qL, dSR = aR * qR;
+  T.SL = vL + dSL;
+  T.SR = vR + dSR;
+  T.Sstar = (pR - pL + rL * vL * dSL - rR * vR * dSR) / (rL * dSL - rR * dSR);
   T.ordered = T.SL <= T.Sstar && T.Sstar <= T.SR;
   const bool left = T.Sstar >= 0;
   const LD rK = left ? rL : rR, pK = left ? pL : pR, vK = left ? vL : vR, SK = left ? T.SL : T.SR;
+  const LD dSK = left ? dSL : dSR;
   const LD *uK = left ? uL : uR;
   const LD EK = pK / (g - 1) + 0.5L * rK * (left ? qL2 : qR2);
   LD U[5] = {rK, rK * uK[0], rK * uK[1], rK * uK[2], EK};
@@ -267,15 +271,15 @@ static Textbook textbook_hllc(const Case &c) {
   const bool star = left ? T.SL < 0 : T.SR > 0;
   T.region = star ? 0 : (left ? -1 : 1);
   if (star) {
-    const LD fac = (SK - vK) / (SK - T.Sstar);
+    const LD fac = dSK / (SK - T.Sstar);
     const LD d = T.Sstar - vK;
     LD Us[5] = {rK * fac, rK * fac * (uK[0] + d * n[0]), rK * fac * (uK[1] + d * n[1]),
                 rK * fac * (uK[2] + d * n[2]),
-                rK * fac * (EK / rK + d * (T.Sstar + pK / (rK * (SK - vK))))};
+                rK * fac * (EK / rK + d * (T.Sstar + pK / (rK * dSK)))};
     LD Um[5] = {fabsl(Us[0]), fabsl(rK * fac) * (fabsl(uK[0]) + fabsl(d * n[0])),
                 fabsl(rK * fac) * (fabsl(uK[1]) + fabsl(d * n[1])),
                 fabsl(rK * fac) * (fabsl(uK[2]) + fabsl(d * n[2])),
-                fabsl(rK * fac) * (EK / rK + fabsl(d) * (fabsl(T.Sstar) + fabsl(pK / (rK * (SK - vK)))))};
+                fabsl(rK * fac) * (EK / rK + fabsl(d) * (fabsl(T.Sstar) + fabsl(pK / (rK * dSK))))};
     for (int i = 0; i < 5; ++i) {
       F[i] += SK * (Us[i] - U[i]);
       mag[i] += fabsl(SK) * (Um[i] + fabsl(U[i]));
@@ -329,7 +333,8 @@ struct Acc {
   uint64_t checks[O_COUNT] = {0}, near[O_COUNT] = {0};
   double worst[O_COUNT] = {0};
   uint64_t regimes[6] = {0};
-  uint64_t cold_moving = 0, reduced = 0;
+  uint64_t cont_unresolved = 0, sample_rescued = 0;
+  uint64_t cold_moving = 0, reduced = 0, rescued_boost = 0, rescued_textbook = 0;
   uint64_t unordered = 0, ties_skipped = 0, hllc_regions[3] = {0}, cont_waves = 0, sample_near_disc = 0;
   void note(int o, double ratio) {
     ++checks[o];
@@ -397,6 +402,47 @@ static double rel_tol(bool exact, const Frame &f, double g) {
   return 64. * EPS * (1. + 2. * g / (g - 1.));
 }
 
+/// Variation of the approximate solver's flux when its inputs move by their
+/// own rounding (normal velocities by eta, densities and pressures by 4 eps
+/// relative).  The pressure estimate 1/2 (PL+PR) - 1/8 (vR-vL)(rhoL+rhoR)(aL+aR)
+/// couples both sides: for extreme contrasts, and at ties where it equals a
+/// side's pressure, one ulp of an input moves the wave speeds visibly.  A
+/// comparison that involves rounded inputs (boost) or another arithmetic
+/// (textbook in long double) cannot be sharper than this variation.
+static void hllc_sensitivity(Ctx &X, const Case &c, const Flux &F0, double eta, double var[5]) {
+  for (int i = 0; i < 5; ++i)
+    var[i] = 0.;
+  for (int k = 0; k < 12; ++k) {
+    Case d = c;
+    const double sg = (k & 1) ? 1. : -1.;
+    switch (k / 2) {
+    case 0:
+      d.uL = c.uL + (sg * eta) * c.n;
+      break;
+    case 1:
+      d.uR = c.uR + (sg * eta) * c.n;
+      break;
+    case 2:
+      d.pL = c.pL * (1. + sg * 4. * EPS);
+      break;
+    case 3:
+      d.pR = c.pR * (1. + sg * 4. * EPS);
+      break;
+    case 4:
+      d.rL = c.rL * (1. + sg * 4. * EPS);
+      break;
+    default:
+      d.rR = c.rR * (1. + sg * 4. * EPS);
+    }
+    const Flux G = call(*X.hl, d);
+    ++X.A->calls;
+    if (!finite(G))
+      continue;
+    for (int i = 0; i < 5; ++i)
+      var[i] = std::max(var[i], std::fabs(G.c(i) - F0.c(i)));
+  }
+}
+
 static void check_lattice_case(Ctx &X, const Case &c) {
   Acc &A = *X.A;
   const Frame f = frame_of(c);
@@ -457,6 +503,8 @@ static void check_lattice_case(Ctx &X, const Case &c) {
         int wi;
         const double r = compare(G, want, tol, wi);
         A.note(O_SWAP, r);
+        if (g_near_dump > 0. && r > g_near_dump && r <= 1.)
+          fprintf(stderr, "NEAR swap %s ratio %.3g comp %s :: %s\n", sn, r, cname[wi], case_text(c).c_str());
         if (X.verbose)
           printf(" %-5s swapped         %s ratio %.3g\n", sn, flux_text(G).c_str(), r);
         if (r > 1.)
@@ -485,7 +533,24 @@ static void check_lattice_case(Ctx &X, const Case &c) {
         for (int i = 0; i < 5; ++i)
           tol[i] = rel * s.c(i);
         int wi;
-        const double r = compare(G, want, tol, wi);
+        double r = compare(G, want, tol, wi);
+        if (r > 1. && !exact && hllc_waves) {
+          // inputs of the boosted call are rounded: allow the flux variation
+          // over that rounding (see hllc_sensitivity)
+          double var[5];
+          hllc_sensitivity(X, c, F, 8. * EPS * (norm(c.uL) + norm(c.uR) + norm(c.vf) + wn), var);
+          const double wv[3] = {c.w.x, c.w.y, c.w.z};
+          double vp = 0.;
+          for (int i = 0; i < 3; ++i)
+            vp += std::fabs(wv[i]) * var[1 + i];
+          tol[0] += 2. * var[0];
+          for (int i = 0; i < 3; ++i)
+            tol[1 + i] += 2. * (var[1 + i] + std::fabs(wv[i]) * var[0]);
+          tol[4] += 2. * (var[4] + vp + 0.5 * wn * wn * var[0]);
+          r = compare(G, want, tol, wi);
+          if (r <= 1.)
+            ++A.rescued_boost;
+        }
         A.note(O_BOOST, r);
         if (X.verbose)
           printf(" %-5s boosted         %s ratio %.3g\n", sn, flux_text(G).c_str(), r);
@@ -534,7 +599,18 @@ static void check_lattice_case(Ctx &X, const Case &c) {
         tol[i] = 64. * EPS * std::max((double)T.mag[i], s.c(i));
       }
       int wi;
-      const double r = compare(Fsolver[1], want, tol, wi);
+      double r = compare(Fsolver[1], want, tol, wi);
+      if (r > 1.) {
+        // double against long double: allow the variation of the code's flux
+        // over one rounding of its inputs (see hllc_sensitivity)
+        double var[5];
+        hllc_sensitivity(X, c, Fsolver[1], 8. * EPS * (norm(c.uL) + norm(c.uR) + norm(c.vf)), var);
+        for (int i = 0; i < 5; ++i)
+          tol[i] += 2. * var[i];
+        r = compare(Fsolver[1], want, tol, wi);
+        if (r <= 1.)
+          ++A.rescued_textbook;
+      }
       A.note(O_TEXTBOOK, r);
       if (X.verbose)
         printf(" textbook HLLC         (%.17g, [%.17g, %.17g, %.17g], %.17g) ratio %.3g\n", want[0], want[1],
@@ -656,7 +732,8 @@ static void mags(const Nb &s, double g, double speed, double U[3], double G[3]) 
   U[0] = s.r;
   U[1] = s.r * (std::fabs(s.v) + s.t);
   U[2] = E;
-  const double q = std::fabs(s.v) + std::fabs(speed);
+  const double a = s.r > 0. ? std::sqrt(g * s.p / s.r) : 0.;
+  const double q = std::fabs(s.v) + std::fabs(speed) + a;
   G[0] = s.r * q;
   G[1] = s.r * q * (std::fabs(s.v) + s.t) + s.p;
   G[2] = (E + s.p) * std::fabs(s.v) + E * std::fabs(speed);
@@ -664,6 +741,8 @@ static void mags(const Nb &s, double g, double speed, double U[3], double G[3]) 
 static void check_wave_crossing(Ctx &X, const Case &c0, const Frame &f, bool exact, double s, double delta,
                                 const Nb &left, const Nb &right, double noise, const std::string &regime,
                                 const char *wname) {
+  // absolute rounding of the velocities in the frame of the face (k = 64)
+  const double vround = 64. * EPS * (std::fabs(s) + norm(c0.uL) + norm(c0.uR) + f.aL + f.aR);
   Acc &A = *X.A;
   const RiemannSolver &S = exact ? (const RiemannSolver &)*X.ex : (const RiemannSolver &)*X.hl;
   const char *sn = exact ? "exact" : "hllc";
@@ -688,7 +767,7 @@ static void check_wave_crossing(Ctx &X, const Case &c0, const Frame &f, bool exa
     const int k = i == 0 ? 0 : i == 4 ? 2 : 1;
     // d/dw [F(U) - w U] = -U inside a self-similar solution (k = 8 over the
     // width 2 delta), plus the accuracy of the solver on the local flux
-    const double tol = 8. * delta * std::max(U1[k], U2[k]) + noise * std::max(G1[k], G2[k]);
+    const double tol = (8. * delta + vround) * std::max(U1[k], U2[k]) + noise * std::max(G1[k], G2[k]);
     const double d = std::fabs(Fa.c(i) - Fb.c(i));
     const double r = d == 0. ? 0. : (tol > 0. ? d / tol : 1e300);
     if (r > worst) {
@@ -719,7 +798,19 @@ static void check_continuity_case(Ctx &X, const Case &c) {
   const double V = f.aL + f.aR + std::fabs(f.vL) + std::fabs(f.vR);
   if (!(V > 0.))
     return;
-  const double delta = 1e-7 * V;
+  // half width of the window around a wave: 1e-3 of the distance to the
+  // nearest other wave (the two sides of a problem may live on very different
+  // scales), skipped when that is not resolved by the rounding of the speeds
+  auto window = [&](const std::vector< double > &sp, size_t i) {
+    double gap = f.aL + f.aR;
+    if (i > 0)
+      gap = std::min(gap, sp[i] - sp[i - 1]);
+    if (i + 1 < sp.size())
+      gap = std::min(gap, sp[i + 1] - sp[i]);
+    const double d = 1e-3 * gap;
+    const double floor_d = 1e4 * EPS * (std::fabs(sp[i]) + V);
+    return d >= floor_d ? d : -1.;
+  };
   const V3 tLv = (c.uL - c.vf) - f.vL * c.n, tRv = (c.uR - c.vf) - f.vR * c.n;
   const double tL = norm(tLv), tR = norm(tRv);
   std::string reg = vac_name(f);
@@ -739,8 +830,17 @@ static void check_continuity_case(Ctx &X, const Case &c) {
       continue; // branch of the approximate solver not determined at the tie
     if (exact || f.vac != 0) {
       const double noise = (f.vac == 0 || f.vac == 2) ? 4e-7 : 1e-9 * (1. + 2. * c.g / (c.g - 1.));
-      for (const auto &w : waves) {
-        const double s = (double)w.speed;
+      std::vector< double > sp;
+      for (const auto &w : waves)
+        sp.push_back((double)w.speed);
+      for (size_t iw = 0; iw < waves.size(); ++iw) {
+        const auto &w = waves[iw];
+        const double s = sp[iw];
+        const double delta = window(sp, iw);
+        if (delta < 0.) {
+          ++A.cont_unresolved;
+          continue;
+        }
         LD r1, v1, p1, r2, v2, p2;
         ref.state(w.left, (LD)(s - delta), r1, v1, p1);
         ref.state(w.right, (LD)(s + delta), r2, v2, p2);
@@ -767,9 +867,17 @@ static void check_continuity_case(Ctx &X, const Case &c) {
       const Nb UL = {c.rL, f.vL, c.pL, tL}, UR = {c.rR, f.vR, c.pR, tR};
       const Nb SLs = starstate(true), SRs = starstate(false);
       const std::string r2 = reg + ":hllc-star-state";
-      check_wave_crossing(X, c, f, false, (double)T.SL, delta, UL, SLs, 1e-9, r2, "left-wave");
-      check_wave_crossing(X, c, f, false, (double)T.Sstar, delta, SLs, SRs, 1e-9, r2, "contact");
-      check_wave_crossing(X, c, f, false, (double)T.SR, delta, SRs, UR, 1e-9, r2, "right-wave");
+      const std::vector< double > sp = {(double)T.SL, (double)T.Sstar, (double)T.SR};
+      const Nb *nb[4] = {&UL, &SLs, &SRs, &UR};
+      const char *wn[3] = {"left-wave", "contact", "right-wave"};
+      for (size_t iw = 0; iw < 3; ++iw) {
+        const double delta = window(sp, iw);
+        if (delta < 0.) {
+          ++A.cont_unresolved;
+          continue;
+        }
+        check_wave_crossing(X, c, f, false, sp[iw], delta, *nb[iw], *nb[iw + 1], 1e-9, r2, wn[iw]);
+      }
     }
   }
 }
@@ -869,6 +977,29 @@ static void check_sample_case(Ctx &X, const Case &c) {
       ratio = std::max(ratio, std::fabs(t.u - uw) / (tu + DBL_MIN));
       if (t.flag != fw)
         ratio = std::max(ratio, 2.);
+    }
+    if (ratio > 1. && i == 1) {
+      // the boosted speeds are rounded sums: allow the variation of the
+      // directly sampled state over that rounding of the sampling speed
+      const double eta = 8. * EPS * (std::fabs(c.xi) + std::fabs(w) + std::fabs(uL) + std::fabs(uR));
+      double vr = 0., vu = 0., vp = 0.;
+      for (double sg : {-1., 1.}) {
+        const St q = solve1d(S, c.rL, uL, c.pL, c.rR, uR, c.pR, c.xi + sg * eta);
+        ++A.calls;
+        if (!physical(q))
+          continue;
+        vr = std::max(vr, std::fabs(q.r - s0.r));
+        vu = std::max(vu, std::fabs(q.u - s0.u));
+        vp = std::max(vp, std::fabs(q.p - s0.p));
+      }
+      double r2 = std::max(std::fabs(t.r - s0.r) / (tr + 2. * vr + DBL_MIN),
+                           std::fabs(t.p - s0.p) / (tp + 2. * vp + DBL_MIN));
+      if (!empty)
+        r2 = std::max(r2, std::fabs(t.u - uw) / (tu + 2. * vu + DBL_MIN));
+      if (r2 <= 1. && (t.flag == fw || empty || vr > 0. || vp > 0.)) {
+        ratio = r2;
+        ++A.sample_rescued;
+      }
     }
     A.note(O_SAMPLE, ratio);
     if (ratio > 1.)
@@ -980,6 +1111,10 @@ static void merge(Acc &T, const Acc &a) {
   T.boost_ties_skipped += a.boost_ties_skipped;
   T.cold_moving += a.cold_moving;
   T.reduced += a.reduced;
+  T.cont_unresolved += a.cont_unresolved;
+  T.sample_rescued += a.sample_rescued;
+  T.rescued_boost += a.rescued_boost;
+  T.rescued_textbook += a.rescued_textbook;
   T.ties_skipped += a.ties_skipped;
   T.cont_waves += a.cont_waves;
   T.sample_near_disc += a.sample_near_disc;
@@ -1000,6 +1135,7 @@ int main(int argc, char **argv) {
   install_abort_trap();
   const std::string family = A.get("family", "lattice");
   g_cold_strict = A.get("cold-gas", "vacuum") == "strict";
+  g_near_dump = atof(A.get("near-dump", "0").c_str());
 
   if (!A.replay.empty()) {
     const std::string text = read_file(A.replay);
@@ -1027,9 +1163,11 @@ int main(int argc, char **argv) {
     else if (fam == "mirror")
       check_mirror_case(X, c);
     else if (fam == "continuity") {
-      // the reported case carries the face velocity of the crossing: show it
-      // as a plain lattice case (fluxes on one side of the wave)
-      check_lattice_case(X, c);
+      // the reported case carries the face velocity of the crossing; the
+      // family itself starts from a face at rest and visits every wave
+      printf("reported crossing at face velocity [%.17g, %.17g, %.17g]\n", c.vf.x, c.vf.y, c.vf.z);
+      c.vf = {0., 0., 0.};
+      check_continuity_case(X, c);
     } else if (fam == "sample")
       check_sample_case(X, c);
     else
@@ -1267,8 +1405,12 @@ int main(int argc, char **argv) {
   if (family == "identical")
     R.set("identical_pressureless_moving_states_treated_as_vacuum", (double)T.cold_moving);
   R.set("hllc_wave_speeds_not_ordered_skipped", (double)T.unordered);
+  R.set("hllc_boost_passed_only_with_input_rounding_sensitivity", (double)T.rescued_boost);
+  R.set("hllc_textbook_passed_only_with_input_rounding_sensitivity", (double)T.rescued_textbook);
   R.set("vacuum_limit_ties_without_hllc_equals_exact_claim", (double)T.ties_skipped);
   R.set("wave_crossings_checked", (double)T.cont_waves);
+  R.set("wave_crossings_not_resolved_by_double_speeds_skipped", (double)T.cont_unresolved);
+  R.set("sample_comparisons_passed_only_with_speed_rounding_sensitivity", (double)T.sample_rescued);
   R.set("samples_next_to_discontinuity_not_compared", (double)T.sample_near_disc);
   static const char *rn[6] = {"no_vacuum", "vacuum_generation", "vacuum_limit_tie", "right_vacuum", "left_vacuum",
                               "both_vacuum"};
